@@ -4,6 +4,7 @@
 package chain
 
 import (
+	"encoding/hex"
 	"encoding/json"
 	"fmt"
 	"os"
@@ -133,6 +134,7 @@ type Chain struct {
 	// Dead is set after a panic escaped a consensus call; the app must not be used further.
 	Dead     bool
 	LastHash []byte
+	rec      int // 1 + index into Rec.Chains, 0 = not recorded
 }
 
 type PanicError struct {
@@ -268,6 +270,10 @@ func New(cfg Config) (*Chain, error) {
 			return nil, err
 		}
 	}
+	if Rec != nil {
+		c.rec = Rec.newChain() + 1
+		Rec.add(c.rec-1, TraceOp{Op: "init", TimeNs: cfg.GenesisTime.UnixNano(), Bytes: stateBytes})
+	}
 	var perr error
 	func() {
 		defer func() {
@@ -334,6 +340,16 @@ func (c *Chain) BeginBlock(dt time.Duration) (evs []Event, perr error) {
 	}()
 	res := c.App.BeginBlock(abci.RequestBeginBlock{Header: c.header})
 	c.InBlock = true
+	if Rec != nil && c.rec > 0 {
+		paid := map[string]bool{}
+		mod := ModuleAddr("storage").String()
+		for _, t := range Transfers(convEvents(res.Events)) {
+			if t.From == mod {
+				paid[t.To] = true
+			}
+		}
+		Rec.add(c.rec-1, TraceOp{Op: "begin", Height: c.Height, TimeNs: c.Time.UnixNano(), Prop: c.header.ProposerAddress, Digest: DigestBegin(res), Paid: len(paid)})
+	}
 	return convEvents(res.Events), nil
 }
 
@@ -348,6 +364,9 @@ func (c *Chain) EndBlock() (evs []Event, perr error) {
 		}
 	}()
 	res := c.App.EndBlock(abci.RequestEndBlock{Height: c.Height})
+	if Rec != nil && c.rec > 0 {
+		Rec.add(c.rec-1, TraceOp{Op: "end", Height: c.Height, Digest: DigestEnd(res)})
+	}
 	return convEvents(res.Events), nil
 }
 
@@ -361,6 +380,9 @@ func (c *Chain) Commit() (hash []byte, perr error) {
 	res := c.App.Commit()
 	c.InBlock = false
 	c.LastHash = res.Data
+	if Rec != nil && c.rec > 0 {
+		Rec.add(c.rec-1, TraceOp{Op: "commit", Height: c.Height, Digest: hex.EncodeToString(res.Data)})
+	}
 	return res.Data, nil
 }
 
@@ -445,6 +467,9 @@ func (c *Chain) DeliverGas(priv cryptotypes.PrivKey, gas uint64, msgs ...sdk.Msg
 
 func (c *Chain) DeliverRaw(bz []byte) TxResult {
 	r := c.App.DeliverTx(abci.RequestDeliverTx{Tx: bz})
+	if Rec != nil && c.rec > 0 {
+		Rec.add(c.rec-1, TraceOp{Op: "tx", Height: c.Height, Bytes: bz, Digest: DigestTx(r), Info: fmt.Sprintf("code=%d gas=%d", r.Code, r.GasUsed)})
+	}
 	return TxResult{Code: r.Code, Codespace: r.Codespace, Log: r.Log, GasUsed: r.GasUsed, GasWanted: r.GasWanted,
 		Data: r.Data, Events: convEvents(r.Events), TxBytes: bz}
 }
